@@ -82,6 +82,10 @@ func GenCIDRList(rt *rapid.T, maxN int) ([]string, []netip.Prefix) {
 				}
 			}
 			s = fmt.Sprintf("%s/%d", a, bits)
+			if a.Is4() && rapid.IntRange(0, 5).Draw(rt, "mappedform") == 0 {
+				// the same IPv4 range written inside the IPv4-mapped block
+				s = fmt.Sprintf("::ffff:%s/%d", a, 96+bits)
+			}
 		}
 		cidrs = append(cidrs, s)
 		if p, err := netip.ParsePrefix(s); err == nil {
@@ -108,6 +112,10 @@ func RefContains(parsed []netip.Prefix, a netip.Addr) (bool, int) {
 	u := a.Unmap()
 	n := 0
 	for _, p := range parsed {
+		// a prefix inside ::ffff:0:0/96 names IPv4 addresses, as a mapped source counts as the IPv4 address it carries
+		if p.Addr().Is4In6() && p.Bits() >= 96 {
+			p = netip.PrefixFrom(p.Addr().Unmap(), p.Bits()-96)
+		}
 		if p.Contains(u) {
 			n++
 		}
